@@ -11,7 +11,7 @@ func prop(id, title string, quick, thorough []string, decided, notDecided string
 
 func init() {
 	prop("C01", "Token flow conforms to BPMN semantics",
-		[]string{"R1", "R2", "R3", "R3d", "R3e", "R5", "R6", "R7", "R8", "R9", "R10", "R13", "R36", "R38", "R39", "R51"}, nil,
+		[]string{"R1", "R2", "R3", "R3d", "R3e", "R5", "R6", "R7", "R8", "R9", "R10", "R13", "R36", "R38", "R39", "R51", "R57"}, nil,
 		"Structural necessary conditions of token accounting, decided on every path of the analysed functions: every token goroutine is counted before it starts and uncounted exactly once on every exit (R1); every request taken from a node mailbox is answered, parked, delegated or reported on every path and never answered twice, a releasing join hands each parked token exactly one action and empties its parked list / counter (R2,R3,R3d); every message type posted has a handler (R5) and every action type an interpreter, enum switches are exhaustive (R6); forked flows start only after the FlowTrace that announces them, a terminal trace is the last trace, leave/move/visit are ordered, every token exit is announced (R7-R10); the element->node mapping is frozen before use (R13); process and sub-process build and register the same 18 node kinds with checked constructor errors (R36).",
 		"that conditions evaluate to the right truth value, that the number of requests equals what the token game prescribes for a given graph and data, order consistency for a given graph, final variable values (these quantify over process graphs and inputs).")
 	prop("C02", "Completion is reported iff all start events fired and no token remains",
@@ -23,11 +23,11 @@ func init() {
 		"Decides: a token's request at the gateway is never dropped (R2); on release every parked token receives exactly one action (surplus ones completeAction), the parked list is emptied and the arrival counter re-initialised in the releasing branch so that re-entry starts from scratch (R3,R3d); a release can never strand the gateway on a token that left (reply capacity, R4); join state is confined to the gateway goroutine (R24).",
 		"that the comparison is == N rather than >= N, the partition arithmetic of distributeFlows (value-level facts).")
 	prop("C04", "Exclusive gateway",
-		[]string{"R2", "R5", "R24", "R26", "R38", "R39", "R51"}, nil,
+		[]string{"R2", "R5", "R24", "R26", "R38", "R39", "R51", "R52", "R53"}, nil,
 		"Decides: every request and every probe report is answered, parked, re-queued or reported (R2,R5); probing state is confined to the gateway goroutine (R24); both registered expression engines are usable from the token goroutine without a nil-map write (R26a); the list of candidate flows is an order-preserving filter of the gateway's outgoing flows and is not reordered afterwards (R39); a decision handed to a token is a fresh slice that later decisions cannot overwrite (R38).",
 		"'first true wins' as a value fact, truth values of conditions, position of the default.")
 	prop("C05", "Inclusive gateway",
-		[]string{"R2", "R3", "R3e", "R4", "R10", "R16", "R19", "R22", "R24", "R47", "R48"}, nil,
+		[]string{"R2", "R3", "R3e", "R4", "R10", "R16", "R19", "R22", "R24", "R47", "R48", "R52", "R53", "R54"}, nil,
 		"Decides: requests are never dropped (R2); every way a token can end is visible in the trace stream the join's tracker reads (R10); the tracker's subscription and goroutine have a lifecycle (R19,R16); tracker map accesses follow its lock protocol (R22); gateway state is confined (R24); the join releases each parked token exactly once and re-arms (R3); reply capacity (R4).",
 		"that `awaiting` is the right set at the right time (it is read from an asynchronously maintained picture), early or late firing under a given schedule.")
 	prop("C06", "Event-based gateway",
@@ -39,7 +39,7 @@ func init() {
 		"Decides, for every goroutine the engine can start and every channel operation in the engine packages: each operation falls into a discharged class — select-guarded by a done-source or default, reply with capacity, mailbox post with a running owner, tracer protocol, closed-only/timer receive, buffered single-use (R0,R4,R14); every parking loop leaves through a done-source case and no done-source case spins (R16); what a goroutine acquired it releases on all exits: wait-group count (R1), sender handle (R17), subscription (R19), completion lock (R12); every goroutine that sends traces holds a sender handle of the tracer it sends on (R18); channels are closed once and never sent to afterwards (R20,R21).",
 		"'promptly'; that a task request racing the cancel carries a cancelled context beyond the structural binding; liveness of third-party code.")
 	prop("C08", "Task requests",
-		[]string{"R6", "R14[Do]", "R20", "R27", "R40"}, nil,
+		[]string{"R6", "R14[Do]", "R20", "R27", "R40", "R55", "R56"}, nil,
 		"Decides: Do cannot block (R14); the answer path forwards at most one response and always closes `done` exactly once (R20,R40); only declared result names / data outputs reach instance data (R27); the error-mode switch is exhaustive, the retry branch steps the counter on every path back to the select, skip falls through to the flow handling and exit returns (R6,R40).",
 		"'first Do wins' as a value fact, retry count arithmetic.")
 	prop("C09", "Trace stream total order",
